@@ -12,8 +12,11 @@
  *   clock <secs> <nsecs>    value of CLOCK_REALTIME (each call advances it by 1 ms)
  *   cores <n>               CPUs reported by sched_getaffinity
  *   fault <op> <n> <kind> [arg]
- *        op   = open | write | read      (n counts calls of that op on workload files / stdout, from 0)
- *        kind = an errno name (EACCES ENOENT ENOSPC EMFILE EINTR EIO EDQUOT EROFS EISDIR ENOMEM)
+ *        op   = open | write | read | meta (n counts calls of that op on workload files / stdout, from 0;
+ *               meta = rename/unlink/ftruncate/fsync/fdatasync on workload files: errno kinds or crash)
+ *        kind = an errno name (EACCES ENOENT ENOSPC EMFILE EINTR EIO EDQUOT EROFS EISDIR ENOMEM EPIPE);
+ *               with arg 1 a write error is sticky: every later write on that fd fails the same way
+ *               (a disk that is full stays full)
  *             | short <bytes>            transfer only that many bytes (at least 1, fewer than asked)
  *             | crash                    the process dies (SIGKILL) before the call has any effect
  *             | tear <bytes>             the call transfers that many bytes, then the process dies
@@ -42,10 +45,10 @@
 #define MAXFD 4096
 #define MAXFAULT 64
 
-enum { OP_OPEN, OP_WRITE, OP_READ, OP_N };
+enum { OP_OPEN, OP_WRITE, OP_READ, OP_META, OP_N };
 enum { K_ERRNO, K_SHORT, K_CRASH, K_TEAR };
 
-struct fault { int op; long n; int kind; long arg; int fired; };
+struct fault { int op; long n; int kind; long arg; int fired; int sticky; };
 
 static int g_init;
 static int g_logfd = -1;
@@ -56,6 +59,7 @@ static int g_have_rand;
 static int64_t g_clock_s; static long g_clock_ns; static int g_have_clock;
 static int g_cores;
 static struct fault g_faults[MAXFAULT]; static int g_nfaults;
+static int g_sticky[MAXFD];             /* errno that every further write on this fd returns (disk stays full) */
 static unsigned char g_wl_fd[MAXFD];   /* 1 = workload file, 2 = created/truncated by this process */
 static long g_count[OP_N];
 static long g_seq;
@@ -129,13 +133,13 @@ static void init(void) {
             g_cores = (int)n;
         } else if (sscanf(line, "fault %63s %ld %63s %ld", b, &n, c, &arg) >= 3 && g_nfaults < MAXFAULT) {
             struct fault f; memset(&f, 0, sizeof f);
-            f.op = !strcmp(b, "open") ? OP_OPEN : !strcmp(b, "write") ? OP_WRITE : OP_READ;
+            f.op = !strcmp(b, "open") ? OP_OPEN : !strcmp(b, "write") ? OP_WRITE : !strcmp(b, "meta") ? OP_META : OP_READ;
             f.n = n;
             if (!strcmp(c, "short")) { f.kind = K_SHORT; f.arg = arg; }
             else if (!strcmp(c, "crash")) f.kind = K_CRASH;
             else if (!strcmp(c, "tear")) { f.kind = K_TEAR; f.arg = arg; }
             else {
-                f.kind = K_ERRNO; f.arg = EIO;
+                f.kind = K_ERRNO; f.sticky = (arg == 1); f.arg = EIO;
                 for (int i = 0; ERRNOS[i].name; i++) if (!strcmp(ERRNOS[i].name, c)) f.arg = ERRNOS[i].val;
             }
             g_faults[g_nfaults++] = f;
@@ -213,6 +217,7 @@ int close(int fd) {
     init();
     if (fd >= 0 && fd < MAXFD && g_wl_fd[fd]) {
         g_wl_fd[fd] = 0;
+        g_sticky[fd] = 0;
         raw_log("%ld close fd%d\n", g_seq++, fd);
     }
     if (fd == g_logfd) { errno = EBADF; return -1; }
@@ -232,6 +237,11 @@ ssize_t write(int fd, const void *buf, size_t count) {
     }
     long n = g_count[OP_WRITE]++;
     long seq = g_seq++;
+    if (fd >= 0 && fd < MAXFD && g_sticky[fd]) {
+        raw_log("%ld write#%ld fd%d %zu -> %s\n", seq, n, fd, count, errno_name(g_sticky[fd]));
+        errno = g_sticky[fd];
+        return -1;
+    }
     struct fault *f = fault_for(OP_WRITE, n);
     if (f) {
         f->fired = 1;
@@ -260,6 +270,7 @@ ssize_t write(int fd, const void *buf, size_t count) {
         }
         default:
             raw_log("%ld write#%ld fd%d %zu -> %s\n", seq, n, fd, count, errno_name((int)f->arg));
+            if (f->sticky && fd >= 0 && fd < MAXFD) g_sticky[fd] = (int)f->arg;
             errno = (int)f->arg;
             return -1;
         }
@@ -316,6 +327,74 @@ ssize_t writev(int fd, const struct iovec *iov, int iovcnt) {
         if ((size_t)r < iov[i].iov_len) break;
     }
     return total;
+}
+
+
+/* ---------------------------------------------------------------- rename / unlink / ftruncate / fsync
+ * The shipped tool uses none of these; changed code might ("atomic save"). They are logged and
+ * are fault / crash points like any other call on a workload file. */
+
+static int meta_gate(const char *what, const char *a, const char *b, int fd) {
+    long n = g_count[OP_META]++;
+    long seq = g_seq++;
+    struct fault *f = fault_for(OP_META, n);
+    char desc[700];
+    if (a) snprintf(desc, sizeof desc, "%s %s%s%s", what, a, b ? " -> " : "", b ? b : "");
+    else snprintf(desc, sizeof desc, "%s fd%d", what, fd);
+    if (f) {
+        f->fired = 1;
+        if (f->kind == K_CRASH || f->kind == K_TEAR) { raw_log("%ld meta#%ld %s -> CRASH\n", seq, n, desc); die_now(); }
+        if (f->kind == K_ERRNO) { raw_log("%ld meta#%ld %s -> %s\n", seq, n, desc, errno_name((int)f->arg)); errno = (int)f->arg; return -1; }
+    }
+    raw_log("%ld meta#%ld %s -> ok\n", seq, n, desc);
+    return 0;
+}
+static const char *relp(const char *p) { return is_workload_path(p) ? p + g_prefix_len : p; }
+
+int rename(const char *a, const char *b) {
+    init();
+    if ((is_workload_path(a) || is_workload_path(b)) && meta_gate("rename", relp(a), relp(b), -1) < 0) return -1;
+    return (int)syscall(SYS_renameat2, AT_FDCWD, a, AT_FDCWD, b, 0);
+}
+int renameat(int da, const char *a, int db, const char *b) {
+    init();
+    if ((is_workload_path(a) || is_workload_path(b)) && meta_gate("rename", relp(a), relp(b), -1) < 0) return -1;
+    return (int)syscall(SYS_renameat2, da, a, db, b, 0);
+}
+int renameat2(int da, const char *a, int db, const char *b, unsigned int flags) {
+    init();
+    if ((is_workload_path(a) || is_workload_path(b)) && meta_gate("rename", relp(a), relp(b), -1) < 0) return -1;
+    return (int)syscall(SYS_renameat2, da, a, db, b, flags);
+}
+int unlink(const char *a) {
+    init();
+    if (is_workload_path(a) && meta_gate("unlink", relp(a), NULL, -1) < 0) return -1;
+    return (int)syscall(SYS_unlinkat, AT_FDCWD, a, 0);
+}
+int unlinkat(int d, const char *a, int flags) {
+    init();
+    if (is_workload_path(a) && meta_gate("unlink", relp(a), NULL, -1) < 0) return -1;
+    return (int)syscall(SYS_unlinkat, d, a, flags);
+}
+int ftruncate(int fd, off_t len) {
+    init();
+    if (is_workload_fd_r(fd) && meta_gate("ftruncate", NULL, NULL, fd) < 0) return -1;
+    return (int)syscall(SYS_ftruncate, fd, len);
+}
+int ftruncate64(int fd, off_t len) {
+    init();
+    if (is_workload_fd_r(fd) && meta_gate("ftruncate", NULL, NULL, fd) < 0) return -1;
+    return (int)syscall(SYS_ftruncate, fd, len);
+}
+int fsync(int fd) {
+    init();
+    if (is_workload_fd_r(fd) && meta_gate("fsync", NULL, NULL, fd) < 0) return -1;
+    return (int)syscall(SYS_fsync, fd);
+}
+int fdatasync(int fd) {
+    init();
+    if (is_workload_fd_r(fd) && meta_gate("fdatasync", NULL, NULL, fd) < 0) return -1;
+    return (int)syscall(SYS_fdatasync, fd);
 }
 
 /* ---------------------------------------------------------------- randomness, clock, cpus, threads */
